@@ -2,11 +2,71 @@
 import runner
 
 
-def standard_run(ctx, subchecks):
+def regen_check(ctx, group, equiv_name):
+    """regenerate the Gallina model of `group` (gen/signatures.json) from /repo's CURRENT source with the
+    translator, compile it, and re-check the equivalence / transported property theorems in coq/gen/<equiv_name>.v.
+    returns (ok, info)"""
+    import os, re, shutil, subprocess, sys
+    V = runner.V
+    scratch = os.path.join(V, "build", ctx.prop_id, "gen")
+    os.makedirs(scratch, exist_ok=True)
+    gen_v = os.path.join(scratch, "Gen_%s.v" % group)
+    for ext in (".vo", ".vos", ".vok", ".glob"):
+        try:
+            os.remove(gen_v[:-2] + ext)
+        except OSError:
+            pass
+    r = subprocess.run([sys.executable, os.path.join(V, "gen", "py2coq.py"), "/repo", os.path.join(V, "gen", "signatures.json"), group, gen_v],
+                       capture_output=True, text=True, timeout=120)
+    src = open(os.path.join(V, "coq", "gen", equiv_name + ".v")).read()
+    src_nc = re.sub(r"\(\*.*?\*\)", " ", src, flags=re.S)
+    thms = re.findall(r"^\s*Theorem\s+([\w']+)", src_nc, flags=re.M)
+    ctx.theorems = list(getattr(ctx, "theorems", [])) + thms
+    ctx.regen_obligations = getattr(ctx, "regen_obligations", 0) + len(thms)
+    if r.returncode != 0:
+        return False, {"theorem": thms[0] if thms else None, "error": "translator rejected the source: " + (r.stdout + r.stderr)[-600:]}
+    q = ["-Q", os.path.join(V, "coq", "theories"), "QV", "-Q", scratch, "QVGen"]
+    r = subprocess.run(["timeout", "300", "coqc"] + q + [gen_v], capture_output=True, text=True)
+    if r.returncode != 0:
+        return False, {"theorem": thms[0] if thms else None, "error": "regenerated model does not compile: " + (r.stdout + r.stderr)[-600:]}
+    dst = os.path.join(scratch, equiv_name + ".v")
+    shutil.copy(os.path.join(V, "coq", "gen", equiv_name + ".v"), dst)
+    r = subprocess.run(["timeout", "600", "coqc"] + q + [dst], capture_output=True, text=True)
+    out = r.stdout + r.stderr
+    if r.returncode != 0:
+        m = re.search(r"line (\d+), characters", out)
+        thm = None
+        if m:
+            upto = "\n".join(src.splitlines()[:int(m.group(1))])
+            names = re.findall(r"^\s*(?:Theorem|Lemma)\s+([\w']+)", upto, flags=re.M)
+            thm = names[-1] if names else None
+        return False, {"theorem": thm, "error": out[-800:]}
+    blocks = runner.parse_assumptions(out)
+    bad = [a for closed, axs in blocks for a in axs if a not in runner.ALLOWED_AXIOMS and a.split(".")[-1] not in runner.ALLOWED_AXIOMS]
+    if len(blocks) != len(thms) or bad:
+        return False, {"theorem": thms[0] if thms else None, "error": "assumption gate on regenerated proofs: %d blocks / %d theorems, disallowed %s" % (len(blocks), len(thms), bad)}
+    for t, (closed, axs) in zip(thms, blocks):
+        ctx.axioms[t] = "closed" if closed else sorted(set(axs))
+    ctx.regen_discharged = getattr(ctx, "regen_discharged", 0) + len(thms)
+    return True, {}
+
+
+def standard_run(ctx, subchecks, regens=()):
     """subchecks: list of (name, fn(ctx)). If a theorem no longer checks, the correspondences still run
     (they are the search for a failing input); if they find nothing the violation is reported with
     no-failing-input-found, naming the theorem."""
     ok, info = runner.check_props(ctx)
+    for group, equiv in regens:
+        thms_before = list(ctx.theorems)
+        ok2, info2 = regen_check(ctx, group, equiv)
+        ctx.theorems = thms_before + [t for t in ctx.theorems if t not in thms_before]
+        if not ok2:
+            ok, info = False, info2
+            ctx.note("regenerated-model obligations (%s) not discharged: %s" % (group, str(info2)[:300]))
+    ctx.obligations += getattr(ctx, "regen_obligations", 0)
+    ctx.discharged += getattr(ctx, "regen_discharged", 0)
+    if not ok:
+        ctx.discharged = min(ctx.discharged, ctx.obligations - 1)
     for name, fn in subchecks:
         if ctx.only is None or name in ctx.only:
             fn(ctx)
